@@ -2,6 +2,7 @@ package props
 
 import (
 	"fmt"
+	"sort"
 	"go/constant"
 
 	"golang.org/x/tools/go/ssa"
@@ -102,6 +103,7 @@ func checkC16(c *Ctx) {
 	goroutineJoin(c)
 	pumpsCloseRing(c)
 	serverClose(c)
+	c.listenersReachable()
 }
 
 // goroutineJoin: P7 Add/Done pairing for the goroutines teardown waits for.
@@ -817,4 +819,114 @@ func lastBlockOf(fn *ssa.Function) *ssa.BasicBlock {
 		return rets[0].Block()
 	}
 	return fn.Blocks[0]
+}
+
+// listenersReachable: every listener the Server opens is recorded in a field of the Server that no other entry point
+// records its listener in, and Server.Close closes every such field - otherwise Close leaves an accept loop (and its
+// port) running. The field may be named directly or handed to a shared serve helper as a pointer.
+func (c *Ctx) listenersReachable() {
+	closeFn := c.P.Func("service", "Server", "Close")
+	if closeFn == nil {
+		return
+	}
+	closed := map[string]bool{}
+	for _, call := range ir.Calls(closeFn) {
+		cc := call.Common()
+		if cc.IsInvoke() && cc.Method.Name() == "Close" && ir.TypeIs(cc.Value.Type(), "net", "Listener") {
+			if p := ir.PathOf(cc.Value); len(p.Fields) > 0 {
+				closed[p.Fields[len(p.Fields)-1]] = true
+			}
+		}
+	}
+	isListen := func(call ssa.CallInstruction) bool {
+		f := call.Common().StaticCallee()
+		return f != nil && f.Name() == "Listen" && f.Pkg != nil && (f.Pkg.Pkg.Path() == "net" || f.Pkg.Pkg.Path() == "crypto/tls")
+	}
+	// where a listener value ends up: the Server field it is stored into, following a pointer parameter of a helper
+	// to the field named at the call site
+	var fieldOf func(v ssa.Value, site ssa.CallInstruction, d int) string
+	fieldOf = func(v ssa.Value, site ssa.CallInstruction, d int) string {
+		if v.Referrers() == nil || d > 2 {
+			return ""
+		}
+		for _, ref := range *v.Referrers() {
+			switch x := ref.(type) {
+			case *ssa.Store:
+				if x.Val != v {
+					continue
+				}
+				if p := ir.PathOf(x.Addr); len(p.Fields) > 0 && !p.Opaque {
+					if _, isParam := p.Root.(*ssa.Parameter); isParam && len(p.Fields) == 1 {
+						return p.Fields[0]
+					}
+				}
+				// *field = ln with field a pointer parameter: the field the caller names
+				if prm, ok := ir.SeeThrough(x.Addr).(*ssa.Parameter); ok && site != nil {
+					for i, q := range prm.Parent().Params {
+						if q == prm && i < len(site.Common().Args) {
+							if p := ir.PathOf(site.Common().Args[i]); len(p.Fields) > 0 {
+								return p.Fields[len(p.Fields)-1]
+							}
+						}
+					}
+				}
+			case *ssa.Extract:
+				if f := fieldOf(x, site, d); f != "" {
+					return f
+				}
+			case *ssa.MakeInterface, *ssa.ChangeInterface:
+				if f := fieldOf(x.(ssa.Value), site, d); f != "" {
+					return f
+				}
+			case ssa.CallInstruction:
+				// handed to a helper of the Server: follow the parameter
+				callee := x.Common().StaticCallee()
+				if callee == nil || callee.Blocks == nil || recvNamed(callee) != "Server" {
+					continue
+				}
+				for i, a := range x.Common().Args {
+					if a == v && i < len(callee.Params) {
+						if f := fieldOf(callee.Params[i], x, d+1); f != "" {
+							return f
+						}
+					}
+				}
+			}
+		}
+		return ""
+	}
+	n := 0
+	byField := map[string][]string{}
+	for _, fn := range c.P.Funcs {
+		if recvNamed(fn) != "Server" || fn.Parent() != nil {
+			continue
+		}
+		for _, call := range ir.Calls(fn) {
+			if !isListen(call) {
+				continue
+			}
+			cv, ok := call.(ssa.Value)
+			if !ok {
+				continue
+			}
+			n++
+			field := fieldOf(cv, nil, 0)
+			key := fname(fn) + ":listener-recorded-and-closed"
+			switch {
+			case field == "":
+				c.R.Bad(ruleP9, key, c.P.InstrPos(call), "the listener opened here is not recorded in a field of the Server: Close cannot reach it and the accept loop keeps running")
+			case !closed[field]:
+				c.R.Bad(ruleP9, key, c.P.InstrPos(call), "the listener opened here is recorded in Server."+field+", which Server.Close does not close: the accept loop and its port stay open after Close")
+			default:
+				byField[field] = append(byField[field], fname(fn)+" at "+c.P.InstrPos(call))
+				c.R.Ok(ruleP9, key, c.P.InstrPos(call), "recorded in Server."+field+", closed by Server.Close")
+			}
+		}
+	}
+	for field, users := range byField {
+		sort.Strings(users)
+		c.R.Check(len(users) == 1, ruleP9, "Server."+field+":one-listener-per-field", "", "one entry point records its listener here", "several entry points record their listener in Server."+field+" ("+joinStr(users, "; ")+"): the later one overwrites the earlier, whose accept loop and port Close no longer reaches")
+	}
+	c.R.Count("listeners opened by the Server", n)
+	c.R.Floor("listeners opened by the Server", n, 1)
 }
